@@ -108,6 +108,12 @@ func NewQWorld(cfg QConfig, mon QMon, r *core.Rand, res *core.Result) *QWorld {
 }
 
 func (q *QWorld) prop() string { return q.Mon.Property }
+
+func (q *QWorld) mark(name string, arg int) {
+	if q.Markers {
+		q.Disk.Marker(name, int64(arg))
+	}
+}
 func (q *QWorld) Failed() bool { return q.failed }
 
 func (q *QWorld) tracef(format string, args ...interface{}) {
@@ -250,9 +256,11 @@ func (q *QWorld) WriteChunk(size, chunk int) bool {
 	var n int
 	var err error
 	before := q.cbFlushed
+	q.mark("w-begin", before)
 	if q.guard("Writer.Write", func() { n, err = q.W.Write(data) }) {
 		return false
 	}
+	q.mark("w-end", q.cbFlushed)
 	if err != nil {
 		if q.Cfg.File.MaxPages > 0 && isSpaceErr(err) {
 			if n != 0 {
@@ -283,9 +291,11 @@ func (q *QWorld) WriteChunk(size, chunk int) bool {
 func (q *QWorld) Next() bool {
 	var err error
 	before := q.cbFlushed
+	q.mark("w-begin", before)
 	if q.guard("Writer.Next", func() { err = q.W.Next() }) {
 		return false
 	}
+	q.mark("w-end", q.cbFlushed)
 	// the event is accepted, whatever the flush triggered by Next did
 	q.Events = append(q.Events, q.cur)
 	q.Completed++
@@ -306,9 +316,11 @@ func (q *QWorld) Next() bool {
 func (q *QWorld) Flush() bool {
 	var err error
 	before := q.cbFlushed
+	q.mark("w-begin", before)
 	if q.guard("Writer.Flush", func() { err = q.W.Flush() }) {
 		return false
 	}
+	q.mark("w-end", q.cbFlushed)
 	if err != nil {
 		if q.Cfg.File.MaxPages > 0 && isSpaceErr(err) {
 			q.FlushErrs++
@@ -484,23 +496,17 @@ func (q *QWorld) ACK(n int) bool {
 		return true
 	}
 	var err error
-	if q.Markers {
-		q.Disk.Marker("ack-begin", int64(n))
-	}
+	q.mark("ack-begin", q.Acked+n)
 	if q.guard("Queue.ACK", func() { err = q.Q.ACK(uint(n)) }) {
 		return false
 	}
 	if err != nil {
-		if q.Markers {
-			q.Disk.Marker("ack-fail", int64(n))
-		}
+		q.mark("ack-fail", q.Acked)
 		return q.violate("ack-error", "ack-error:"+kinds(err), "ACK(%d) failed (acked=%d, flushed>=%d): %+v", n, q.Acked, q.FlushedLo, err)
 	}
 	q.Acked += n
 	q.Acks++
-	if q.Markers {
-		q.Disk.Marker("ack-ok", int64(q.Acked))
-	}
+	q.mark("ack-ok", q.Acked)
 	q.tracef("ack(%d) -> acked=%d", n, q.Acked)
 	if q.Mon.Counters && q.cbAcked != q.Acked {
 		return q.violate("cb-acked", "cb-acked", "ACKed callback total is %d but %d events were ACKed", q.cbAcked, q.Acked)
@@ -582,9 +588,11 @@ func (q *QWorld) CloseQueue() bool {
 	}
 	var err error
 	before := q.cbFlushed
+	q.mark("w-begin", before)
 	if q.guard("Queue.Close", func() { err = q.Q.Close() }) {
 		return false
 	}
+	q.mark("w-end", q.cbFlushed)
 	if err != nil {
 		if !(q.Cfg.File.MaxPages > 0 && isSpaceErr(err)) {
 			return q.violate("qclose-error", "qclose-error:"+kinds(err), "Queue.Close failed: %v", err)
